@@ -101,8 +101,10 @@ def is_smooth_shape(ctx: Ctx) -> Ob:
     if q is None or len(q[2]) != 2:
         return unres("R7d", fq, inst, "not a single quantified expression over two generators: no verdict", f.loc)
     quant, elt, gens, neg = q
-    if any(g.ifs for g in gens):
-        return unres("R7d", fq, inst, "filtered generators: no verdict", f.loc)
+    if gens[1].ifs:
+        return viol("R7d", fq, inst, f"the inputs of a sum layer are filtered (`if {unparse(gens[1].ifs[0])[:50]}`) before their scopes are compared: smoothness is a statement about *every* input of every sum -- an exempted input (e.g. one with an empty scope next to one that depends on variables) makes a non-smooth sum pass, and with it integrate's guard, structured decomposability and compatibility", f.loc)
+    if gens[0].ifs:
+        return unres("R7d", fq, inst, "the sum layers are selected by a filter: no verdict", f.loc)
     dom = _which_layers(gens[0])
     s = gens[0].target.id if isinstance(gens[0].target, ast.Name) else None
     it2 = gens[1].iter
@@ -389,4 +391,69 @@ def r7s(ctx: Ctx) -> list[Ob]:
                 out.append(unres("R7s", fq, inst, f"a scope store in a form the rule has no model of: `{txt[:60]}`", site))
     if k == 0:
         out.append(unres("R7s", fq, "scope-store", f"no store into {table} found in the constructor", f.loc))
+    return out
+
+
+# ------------------------------------------------------------------------------------------ R7t
+def r7t(ctx: Ctx) -> list[Ob]:
+    """R7t -- a product's factorization is the split made by *that* product.
+
+    Structured decomposability and compatibility compare, per scope, how the products over it split
+    it.  The split recorded for a product layer is the tuple of the scopes of its *direct* inputs.
+    Substituting the operands of an input that is itself a product (flattening X*(Y*Z) into X*Y*Z)
+    makes X*(Y*Z) and (X*Y)*Z record the same factorization although one splits {X,Y,Z} into
+    {X},{Y,Z} and the other into {X,Y},{Z}: circuits with different nestings are then reported
+    compatible / structured-decomposable."""
+    fq = "cirkit.symbolic.circuit._scope_factorizations"
+    f = ctx.repo.func(fq)
+    out: list[Ob] = []
+    comps = [n for n in ast.walk(f.node) if isinstance(n, (ast.GeneratorExp, ast.ListComp)) and "layer_scope(" in unparse(n.elt)]
+    if not comps:
+        return [unres("R7t", fq, "direct-inputs", "no comprehension over the scopes of a product's inputs found", f.loc)]
+    for c in comps:
+        it = c.generators[0].iter
+        site = f"{f.module.relpath}:{c.lineno}"
+        if isinstance(it, ast.Call) and isinstance(it.func, ast.Attribute) and it.func.attr == "layer_inputs":
+            out.append(ok("R7t", fq, "direct-inputs", "the recorded split ranges over the product's own inputs", site))
+        elif isinstance(it, ast.Call):
+            callee = ctx.repo.get_function(f.module, it.func) if hasattr(ctx.repo, "get_function") else None
+            recursive = callee is not None and any(isinstance(x, ast.Call) and isinstance(x.func, ast.Name) and x.func.id == callee.name for x in ast.walk(callee.node))
+            if recursive:
+                out.append(viol("R7t", fq, "direct-inputs", f"the split recorded for a product ranges over `{unparse(it)[:50]}`, a recursive expansion of its inputs, not over its direct inputs: differently nested products over one scope (X*(Y*Z) vs (X*Y)*Z) record the same factorization and are reported compatible / structured-decomposable", site))
+            else:
+                out.append(unres("R7t", fq, "direct-inputs", f"the split ranges over `{unparse(it)[:50]}`: not the product's layer_inputs(..), no verdict", site))
+        else:
+            out.append(unres("R7t", fq, "direct-inputs", f"the split ranges over `{unparse(it)[:50]}`: no verdict", site))
+    return out
+
+
+# ------------------------------------------------------------------------------------------ R7u
+def r7u(ctx: Ctx) -> list[Ob]:
+    """R7u -- the structural predicates read the circuit's scope, they do not re-number it.
+
+    A predicate that rebuilds 'the variables' as ``range(num_variables)`` (or ``range(len(scope))``)
+    silently assumes the ids 0..n-1: for a circuit over {1, 2, 3} the reference it compares against is
+    keyed on a scope that no layer has, and the answer (omni-compatibility: vacuously True) depends on
+    how the variables are numbered.  In the predicates of ``Circuit`` / ``circuit.py`` no Scope is
+    built from a ``range(..)`` of the number of variables."""
+    out: list[Ob] = []
+    n = 0
+    for f in ctx.repo.iter_functions():
+        if f.module.name != "cirkit.symbolic.circuit":
+            continue
+        if not (f.name.startswith(("is_", "are_", "_are_", "_scope_")) or f.name in ("properties",)):
+            continue
+        n += 1
+        bad = None
+        for c in walk_no_nested(f.node):
+            if isinstance(c, ast.Call) and isinstance(c.func, ast.Name) and c.func.id == "range":
+                t = unparse(c)
+                if "num_variables" in t or "len(self.scope)" in t or "len(sc.scope)" in t:
+                    bad = c
+        if bad is not None:
+            out.append(viol("R7u", f.qualname, "numbering", f"`{unparse(bad)}` stands in for the circuit's variables: the predicate is right only for scopes numbered 0..n-1 (for any other numbering it compares against a scope no layer has)", f"{f.module.relpath}:{bad.lineno}"))
+        else:
+            out.append(ok("R7u", f.qualname, "numbering", "reads the circuit's own scope", f.loc, nontrivial=False))
+    if n == 0:
+        out.append(unres("R7u", "cirkit.symbolic.circuit", "numbering", "no predicate found", ""))
     return out
